@@ -417,5 +417,9 @@ def run(c, prog):
     C02_type.run(a, prog)
     from . import C02_tok
     C02_tok.run(a, prog)
+    C02_tok.rule_count_domain(c, prog, "C06.count")     # `arbitrary values of the declared type`: the binary codec has no minimum keypoint count
+    from . import C05, C17_domain
+    C05.rule_chars(c, prog, "C06.chars")     # the binary codec stores any text; the XML writer has to refuse or respell what XML cannot carry
+    C17_domain.run(core.Alias(c, "C06"), prog, which=("font",))     # Some("") is None after a binary round trip and Some("") after an XML one
     C07.run_sanitisers(a, prog)
     c.not_decided += ["equality of decoded values across the two codecs (a pair of runs); follows from C01.arm, C02.type and C06.desc only as far as those clauses reach"]
